@@ -2779,6 +2779,15 @@ class ChannelManager:
         # Process the response
         channel.on_connection_response(response)
 
+        # A connected channel is addressed by the peer through its destination CID
+        # from now on (credits, disconnection): register it before any other PDU
+        # is processed, not when the task that awaits connect() resumes.
+        if channel.state == LeCreditBasedChannel.State.CONNECTED:
+            le_connection_channels = self.le_coc_channels.setdefault(
+                connection.handle, {}
+            )
+            le_connection_channels[channel.destination_cid] = channel
+
     def on_l2cap_credit_based_connection_request(
         self,
         connection: Connection,
@@ -2980,10 +2989,7 @@ class ChannelManager:
             connection_channels.pop(source_cid, None)
             raise
 
-        # Remember the channel by source CID and destination CID
-        le_connection_channels = self.le_coc_channels.setdefault(connection.handle, {})
-        le_connection_channels[channel.destination_cid] = channel
-
+        # (The channel was registered by destination CID when the response arrived)
         return channel
 
     async def create_classic_channel(
